@@ -32,8 +32,8 @@ CLAIMED = {
    note="presence/absence is a compile-gate fact (not solver-derived); 10 of the 2^6 x 2 x 2 configurations are sampled; generic #[entry_points(generics<..>)] and the legacy reply entry point are outside; stubs: Backtrace::capture, fmt::format",
    ref="§3 C06"),
  "C04": dict(
-   text="CBMC decides, for the real #[entry_points] expansion of corpus `basic` (19 handlers in 5 kinds, wire name `tick{n}` present as exec, query AND sudo, instantiate and migrate sharing their argument names): every well-formed message of kind K1 (symbolic choice and argument values), decoded by the real contract-level message of kind K2 != K1 and, when accepted, pushed through entry_points::<K2> with echo handlers, never runs a handler annotated with another kind; it is rejected unless K2 itself has a message of that name/shape, in which case K2's OWN handler runs. One harness per ordered pair of kinds.",
-   note="facade container model (validated by a native pre-flight against the real container); the cw_multi_test::Contract byte path and the reply kind are outside; error text stubbed; program dimension sampled by one contract + 2 interfaces",
+   text="CBMC decides, for the real #[entry_points] expansion of corpus `basic` (19 handlers in 5 kinds, wire name `tick{n}` present as exec, query AND sudo, instantiate and migrate sharing their argument names): every well-formed message of kind K1 (symbolic choice and argument values), decoded by the real contract-level message of kind K2 != K1 and, when accepted, pushed through entry_points::<K2> with echo handlers, never runs a handler annotated with another kind; it is rejected unless K2 itself has a message of that name/shape, in which case K2's OWN handler runs. One harness per ordered pair of kinds. The MULTITEST path is decided too: the generated `impl cw_multi_test::Contract` (execute/instantiate/query/sudo/migrate) of a contract without migrate handler and of `basic`, with from_json replaced by a serde-doc decoder, accepts on each operation exactly the messages of its own kind.",
+   note="facade container model (validated by a native pre-flight against the real container); JSON text layer outside on both paths (multitest: sylvia::cw_std::from_json replaced by the facade, feature mt_docs); the reply kind and the cw-multi-test App around the Contract impl are outside; error text stubbed; program dimension sampled by one contract + 2 interfaces",
    ref="§3 C04"),
  "C03": dict(
    text="CBMC runs the REAL generated Contract{Exec,Query,Sudo}Msg::deserialize glue (and the derived decoders of every part on the same document) for a received name with symbolic bytes of each length 3..7, concrete body layouts with symbolic values, and the top-level shapes string/null/number/{}/two keys/{name:number}: the wrapper accepts iff exactly one part accepts, holds that part's variant with a payload equal to the part's own decoding; everything else is an error without panic; the wrapper serialises to the same serde events as the part. For corpus `names` (leading/repeated underscores, digits) the published list equals the set of names the decoder accepts, for every received name of length 1..8.",
